@@ -68,13 +68,62 @@ Extensions for the groups Enums, ReaderGeom, EncoderSetters (anything not listed
   uses it or not (the old groups keep "order of first use"), so that the theorem statements do not depend on the order in which the
   body reads the state.
 * Generated group files import `KernelsCommon` and the groups whose functions they call.
+
+The byte-reader subset (groups Parsers, ParsersApng: the chunk parsers of `StreamingDecoder`, kernels declared with `cps=True`; again nothing is
+guessed, what is not listed raises `Unsupported`):
+
+* `body="self.current_chunk.raw_bytes"`: the chunk body is the first parameter `body : List Int` (bytes 0..255).  `let mut buf = &<body>[..];`
+  makes `buf` a READER at offset 0; the offset of a reader is a constant known at translation time on every path (straight-line code).
+  `buf.read_be()?` of width w in {1, 2, 4} at offset k is `(if decide (k + w ≤ body.length) then (let x := beU<8w> body k; REST) else ERR)`,
+  and the reader is at k + w in REST; `beU8/16/32` (big-endian value of w bytes) are defined in the prelude of `KernelsParsers.lean`, and the
+  translator checks that `read_be` in src/traits.rs IS `read_exact` of `size_of::<T>()` bytes followed by `from_be_bytes` for u8, u16, u32.
+  The WIDTH comes from a turbofish (`read_be::<u32>()`), a type annotation (`let x: u16 = ..`), the declared type of the struct field the
+  value initialises (read from the struct declaration: `FrameControl { width: buf.read_be()?, .. }`), the suffix of a literal pattern when the
+  read is a `match` scrutinee (`match buf.read_be()? { 0u8 => .. }`), or the kernel's declaration `reads={"name": "u32"}` for an unannotated
+  `let name = buf.read_be()?` (the translator still refuses to store / pass such a value where another integer type is declared); otherwise
+  `Unsupported`.  `buf.is_empty()` = `decide (body.length ≤ k)`, `buf.len()` = `body.length - k`.  ERR of a failed read is the error that
+  `parse_chunk` gives to `UnexpectedEof` (read from the source of `parse_chunk`: `ChunkTooShort`), which must be in the kernel's `errors`.
+* `?` and explicit `return` anywhere in an expression: the statement is rewritten in continuation style - sub-expressions with an exit (and
+  those evaluated before them) are bound to names in the order of evaluation (struct-literal fields, arguments, `Some(..)`, the scrutinee of a
+  `match`), and for `let x = if / match / { block }` whose branches may leave, the rest of the function moves into the branches that continue.
+  Names bound inside such a block / arm whose Rust scope ends there are refused when what follows uses an outer variable of the same name.
+  `e?` on: a read (above); `opt.ok_or(..)? / .ok_or_else(|| ..)?` on an `Option` value (error = the declared error named in the argument); the
+  call of a translated function with `Result<(), _>` on a declared path (`pathtypes={"self.limits": "Limits"}`; through `.as_ref().unwrap()` too):
+  its error code is mapped BY NAME to this kernel's code (every error of the callee must be declared here), its outputs (`Limits::reserve_bytes`:
+  `self.bytes`) become this kernel's fields of that path - also when it fails -, a struct argument passes the fields of a struct local.
+* Results: return type `Result<Decoded, DecodingError>` / `Decoded` / `Result<(), _>`.  Every exit returns the tuple
+  `([code,] [event tag, event payload .., ] outputs ..)`: code 0 = `Ok`, k = position in `errors` (`Err(..)`: the first declared error named in
+  it; payloads of errors are not part of the result, but their evaluation is part of `_ok`); with `events={"V": None | "ignore"}` the tag is the
+  index of `Decoded::V` in the enum declaration of the source and the payload its arguments flattened to Ints (a struct local: its fields in
+  declaration order; `bool` as 0/1; "ignore": not represented), padded with 0 to the widest declared variant; an undeclared variant is refused.
+* State: `fields` may have type `("opt", T)` = `Option<T>` for a scalar T or `"bytes"` (`Option<Cow<[u8]>>`), a Lean `Option Int` /
+  `Option (List Int)`; `opts["self.info"]` makes `self.info : Option<Info>` a Bool plus the declared members; `<opt path>.as_ref() / .as_mut() /
+  .unwrap()` is the struct inside (a panic site: `_ok` demands `is_some`); `let info = self.info.as_mut().unwrap();` names it.  Struct literals:
+  tuple-typed fields `f: (A, B)` are flattened to `f_0, f_1`, fields of another declared struct to `f_<field>`; `newtypes={"ScaledFloat": file}`
+  makes a `struct ScaledFloat(u32);` (read from the source) the integer it wraps, `ScaledFloat(v)` / `Self(v)` the identity.
+  `x = Some(Name { f, .., ..Default::default() })` with only some fields of `Name` declared: the written fields must be declared, a declared field
+  that is not written takes its value from `impl Default for Name`, every other field must be `None` / `Vec::new()` there, and the Bool output
+  declared under `defaults={"self.info": "info_rest_default"}` becomes true.
+* Byte vectors: `<body>.len()`, `<body>.clone()` (a value of type `bytes` = `List Int`), on a `bytes` variable `.len()`, `v[k]` (`_ok`: k < length),
+  `v[k] = e` (`List.set`), `v.truncate(k)` (`List.take`), `Cow::Owned(v)` = v, `Some(v)`; `for x in &v { if c { return Err(..) } }` =
+  `if v.any (fun x => c) then <that error> else REST` (which element is found first only shows in the error's payload).
+* Local fns: `<Option<struct> field> = parse(&<body>[..]).ok();` with `fn parse(mut buf: &[u8]) -> Result<Struct, _>` declared in the body: the fn
+  is inlined, every `Ok(s)` stores `Some(s)`, every `Err(..)` and every failed `?` stores `None`, then the rest follows.  Other local fns (`scale`)
+  are inlined as values as before.
+* Side effects that are not scalar state are EXPLICIT in the declaration: `effects={"self.inflater.reset": "inflater_reset"}` (a Bool output that
+  starts false and is true once the call was made), `ignore_calls=[..]` (arguments evaluated for `_ok`, effect not represented),
+  `ignore_assign=["self.state"]`; an undeclared call or assignment is refused.  `x.to_be_bytes()` is an opaque value that may only be passed to an
+  ignored call; `saturating_mul`; `debug_assert*!` are skipped.
+* `arm="U32ValueKind::ApngSequenceNumber"`: the body of that one arm of a `match` of the function is translated as a function of its own; the
+  scalar values it takes from the enclosing function are the declared `args`; with `arm_value="ignore"` the value of the arm (a `State`) is not
+  a result: leaving the arm normally is code 0.
 """
 import os, re, sys, json
 
 ROOT = os.path.join(os.path.dirname(os.path.abspath(__file__)), "..")
 REPO = os.environ.get("PNG_REPO", "/repo")
 OUTDIR = os.path.join(ROOT, "lean", "PngVerif", "Generated")
-GROUPS = ["Common", "Filter", "Adam7", "Stream", "Zlib", "Enums", "ReaderGeom", "EncoderSetters"]   # a group may call functions of the groups before it
+GROUPS = ["Common", "Filter", "Adam7", "Stream", "Zlib", "Enums", "ReaderGeom", "EncoderSetters", "Parsers", "ParsersApng"]   # a group may call functions of the groups before it
 
 # the part of a `Reader` the geometry functions read: the transformation flags (one Bool per flag of the `bitflags!` declaration), the
 # current `Info` (`self.info()`, a struct the translator treats as given: colour type, depth, `trns.is_some()`)
@@ -85,6 +134,18 @@ SETTER_ERRORS = ["OutOfBounds", "ZeroWidth", "ZeroHeight", "NotAnimated"]
 FCTL_RECT = {"width": "u32", "height": "u32", "x_offset": "u32", "y_offset": "u32"}
 FCTL_ALL = {"sequence_number": "u32", "width": "u32", "height": "u32", "x_offset": "u32", "y_offset": "u32", "delay_num": "u16", "delay_den": "u16",
             "dispose_op": "DisposeOp", "blend_op": "BlendOp"}
+# what every chunk parser of `StreamingDecoder` shares
+PARSER = dict(file="src/decoder/stream.rs", impl="StreamingDecoder", fixed=True, cps=True, body="self.current_chunk.raw_bytes",
+              structs={"AnimationControl": "src/common.rs", "FrameControl": "src/common.rs", "PixelDimensions": "src/common.rs",
+                       "SourceChromaticities": "src/common.rs", "CodingIndependentCodePoints": "src/common.rs",
+                       "MasteringDisplayColorVolume": "src/common.rs", "ContentLightLevelInfo": "src/common.rs"},
+              newtypes={"ScaledFloat": "src/common.rs"},
+              pathtypes={"self.info": "Info<'_>", "self.limits": "Limits"})
+CHRM = {"%s_%d" % (c_, i_): "u32" for c_ in ("white", "red", "green", "blue") for i_ in (0, 1)}      # SourceChromaticities, flattened
+IHDR_FIELDS = {"width": "u32", "height": "u32", "bit_depth": "BitDepth", "color_type": "ColorType", "interlaced": "bool"}
+CICP = {"color_primaries": "u8", "transfer_function": "u8", "matrix_coefficients": "u8", "is_video_full_range_image": "bool"}
+MDCV = dict([("chromaticities_%s" % f_, "u32") for f_ in CHRM] + [("max_luminance", "u32"), ("min_luminance", "u32")])
+CLLI = {"max_content_light_level": "u32", "max_frame_average_light_level": "u32"}
 # field-less enums whose discriminants are read from the source: (file, name)
 ENUMS = [("src/common.rs", "ColorType"), ("src/common.rs", "BitDepth"), ("src/common.rs", "BytesPerPixel"), ("src/common.rs", "Unit"),
          ("src/common.rs", "DisposeOp"), ("src/common.rs", "BlendOp"), ("src/common.rs", "SrgbRenderingIntent"), ("src/filter.rs", "RowFilter")]
@@ -169,6 +230,90 @@ KERNELS = [
          structs={"AnimationControl": "src/common.rs", "FrameControl": "src/common.rs"},
          outputs=["self.info.animation_control?", "self.info.animation_control.num_frames", "self.info.animation_control.num_plays",
                   "self.info.frame_control?"] + ["self.info.frame_control.%s" % f_ for f_ in FCTL_ALL]),
+    # ---- group Parsers: the chunk parsers of `StreamingDecoder` (stream.rs), as functions of the chunk body (`body : List Int`, the bytes
+    # of `self.current_chunk.raw_bytes`) and of the scalar decoder state they read; result = (error code, event tag, event payload ..,
+    # outputs ..) - see the module docstring ("the byte-reader subset")
+    dict(group="Parsers", lean="ScaledFloat_from_scaled", file="src/common.rs", impl="ScaledFloat", fn="from_scaled", cps=True, plain=True,
+         newtypes={"ScaledFloat": "src/common.rs"}),
+    dict(group="ParsersApng", lean="parse_actl", fn="parse_actl", errors=["ChunkTooShort", "AfterIdat"],
+         fields={"self": {"have_idat": "bool"}},
+         opts={"self.info": {}, "self.info.animation_control": {"num_frames": "u32", "num_plays": "u32"}},
+         events={"AnimationControl": None},
+         outputs=["self.info.animation_control?", "self.info.animation_control.num_frames", "self.info.animation_control.num_plays"], **PARSER),
+
+    dict(group="Parsers", lean="parse_gama", fn="parse_gama", errors=["ChunkTooShort", "AfterIdat", "DuplicateChunk"],
+         fields={"self": {"have_idat": "bool"}}, opts={"self.info": {"gama_chunk": ("opt", "u32")}},
+         events={"Nothing": None}, outputs=["self.info.gama_chunk"], **PARSER),
+    dict(group="Parsers", lean="parse_srgb", fn="parse_srgb", errors=["ChunkTooShort", "AfterIdat", "DuplicateChunk", "InvalidSrgbRenderingIntent"],
+         fields={"self": {"have_idat": "bool"}}, opts={"self.info": {"srgb": ("opt", "SrgbRenderingIntent")}},
+         events={"Nothing": None}, outputs=["self.info.srgb"], **PARSER),
+    dict(group="Parsers", lean="parse_phys", fn="parse_phys", errors=["ChunkTooShort", "AfterIdat", "DuplicateChunk", "InvalidUnit"],
+         fields={"self": {"have_idat": "bool"}}, opts={"self.info": {}, "self.info.pixel_dims": {"xppu": "u32", "yppu": "u32", "unit": "Unit"}},
+         events={"PixelDimensions": None},
+         outputs=["self.info.pixel_dims?", "self.info.pixel_dims.xppu", "self.info.pixel_dims.yppu", "self.info.pixel_dims.unit"], **PARSER),
+    dict(group="Parsers", lean="parse_chrm", fn="parse_chrm", errors=["ChunkTooShort", "AfterIdat", "DuplicateChunk"],
+         fields={"self": {"have_idat": "bool"}}, opts={"self.info": {}, "self.info.chrm_chunk": CHRM},
+         events={"Nothing": None}, outputs=["self.info.chrm_chunk?"] + ["self.info.chrm_chunk.%s" % f_ for f_ in CHRM], **PARSER),
+    dict(group="ParsersApng", lean="parse_fctl", fn="parse_fctl",
+         errors=["ChunkTooShort", "ApngOrder", "InvalidDisposeOp", "InvalidBlendOp", "InvalidDimensions", "BadSubFrameBounds"],
+         fields={"self": {"current_seq_no": ("opt", "u32"), "ready_for_fdat_chunks": "bool"}},
+         opts={"self.info": {"width": "u32", "height": "u32"}, "self.info.frame_control": FCTL_ALL},
+         effects={"self.inflater.reset": "inflater_reset"}, events={"FrameControl": None},
+         outputs=["self.current_seq_no", "self.ready_for_fdat_chunks", "inflater_reset", "self.info.frame_control?"] +
+                 ["self.info.frame_control.%s" % f_ for f_ in FCTL_ALL], **PARSER),
+    dict(group="Parsers", lean="parse_ihdr", fn="parse_ihdr",
+         errors=["ChunkTooShort", "DuplicateChunk", "InvalidDimensions", "InvalidBitDepth", "InvalidColorType", "InvalidColorBitDepth",
+                 "UnknownCompressionMethod", "UnknownFilterMethod", "UnknownInterlaceMethod"],
+         opts={"self.info": IHDR_FIELDS}, defaults={"self.info": "info_rest_default"},
+         ignore_calls=["self.inflater.set_max_total_output"], events={"Header": None},
+         outputs=["self.info?"] + ["self.info.%s" % f_ for f_ in IHDR_FIELDS] + ["info_rest_default"],
+         **dict(PARSER, structs=dict(PARSER["structs"], Info="src/common.rs"))),
+    dict(group="Parsers", lean="parse_cicp", fn="parse_cicp",
+         fields={"self": {"have_idat": "bool"}},
+         opts={"self.info": {"palette": ("opt", "bytes")}, "self.info.coding_independent_code_points": CICP},
+         events={"Nothing": None},
+         outputs=["self.info.coding_independent_code_points?"] + ["self.info.coding_independent_code_points.%s" % f_ for f_ in CICP], **PARSER),
+    dict(group="Parsers", lean="parse_mdcv", fn="parse_mdcv",
+         fields={"self": {"have_idat": "bool"}},
+         opts={"self.info": {"palette": ("opt", "bytes")}, "self.info.mastering_display_color_volume": MDCV},
+         events={"Nothing": None},
+         outputs=["self.info.mastering_display_color_volume?"] + ["self.info.mastering_display_color_volume.%s" % f_ for f_ in MDCV], **PARSER),
+    dict(group="Parsers", lean="parse_clli", fn="parse_clli",
+         opts={"self.info": {}, "self.info.content_light_level": CLLI},
+         events={"Nothing": None},
+         outputs=["self.info.content_light_level?"] + ["self.info.content_light_level.%s" % f_ for f_ in CLLI], **PARSER),
+    dict(group="Parsers", lean="parse_plte", fn="parse_plte", errors=["DuplicateChunk", "LimitsExceeded"],
+         fields={"self.limits": {"bytes": "usize"}}, opts={"self.info": {"color_type": "ColorType", "palette": ("opt", "bytes")}},
+         events={"Nothing": None}, outputs=["self.info.palette", "self.limits.bytes"], **PARSER),
+    dict(group="Parsers", lean="parse_sbit", fn="parse_sbit",
+         errors=["AfterPlte", "AfterIdat", "DuplicateChunk", "LimitsExceeded", "InvalidSbitChunkSize", "InvalidSbit"],
+         fields={"self": {"have_idat": "bool"}, "self.limits": {"bytes": "usize"}},
+         opts={"self.info": {"color_type": "ColorType", "bit_depth": "BitDepth", "palette": ("opt", "bytes"), "sbit": ("opt", "bytes")}},
+         events={"Nothing": None}, outputs=["self.info.sbit", "self.limits.bytes"], **PARSER),
+    dict(group="Parsers", lean="parse_trns", fn="parse_trns",
+         errors=["DuplicateChunk", "AfterIdat", "LimitsExceeded", "ShortPalette", "BeforePlte", "OutsidePlteIdat", "ColorWithBadTrns"],
+         fields={"self": {"have_idat": "bool"}, "self.limits": {"bytes": "usize"}},
+         opts={"self.info": {"color_type": "ColorType", "bit_depth": "BitDepth", "palette": ("opt", "bytes"), "trns": ("opt", "bytes")}},
+         events={"Nothing": None}, outputs=["self.info.trns", "self.limits.bytes"], **PARSER),
+    dict(group="Parsers", lean="parse_bkgd", fn="parse_bkgd",
+         fields={"self": {"have_idat": "bool"}},
+         opts={"self.info": {"color_type": "ColorType", "palette": ("opt", "bytes"), "bkgd": ("opt", "bytes")}},
+         events={"Nothing": None}, outputs=["self.info.bkgd"], **PARSER),
+    # the arm of `parse_u32` that checks the sequence number of an fdAT chunk (`val` = the four bytes as a big-endian u32)
+    dict(group="ParsersApng", lean="parse_u32_fdat_seq", fn="parse_u32", arm="U32ValueKind::ApngSequenceNumber", args={"val": "u32"},
+         errors=["ApngOrder", "MissingFctl"],
+         fields={"self": {"current_seq_no": ("opt", "u32")}, "self.current_chunk": {"remaining": "u32"}, "self.decode_options": {"ignore_crc": "bool"}},
+         ignore_calls=["self.current_chunk.crc.update"], ignore_assign=["self.state"], events={"PartialChunk": "ignore"},
+         outputs=["self.current_chunk.remaining", "self.current_seq_no"], **{k_: v_ for k_, v_ in PARSER.items() if k_ != "body"}),
+    # the arms of `parse_u32` (chunk type just read) that begin an fdAT / IDAT chunk: the checks before image data is accepted
+    dict(group="ParsersApng", lean="parse_u32_fdat_begin", fn="parse_u32", arm="chunk::fdAT", arm_value="ignore", args={"length": "u32"},
+         errors=["UnexpectedRestartOfDataChunkSequence", "FdatShorterThanFourBytes"],
+         fields={"self": {"ready_for_fdat_chunks": "bool", "have_idat": "bool"}}, outputs=["self.have_idat"],
+         **{k_: v_ for k_, v_ in PARSER.items() if k_ != "body"}),
+    dict(group="ParsersApng", lean="parse_u32_idat_begin", fn="parse_u32", arm="IDAT", arm_value="ignore",
+         errors=["UnexpectedRestartOfDataChunkSequence"],
+         fields={"self": {"ready_for_idat_chunks": "bool", "have_idat": "bool"}}, outputs=["self.have_idat"],
+         **{k_: v_ for k_, v_ in PARSER.items() if k_ != "body"}),
 ]
 
 INT_TYPES = {
@@ -239,7 +384,7 @@ def struct_fields(src, name):
     body = src[m.end():match_brace(src, m.end() - 1) - 1]
     body = re.sub(r"#\[[^\]]*\]", " ", body)
     out = {}
-    for part in body.split(","):
+    for part in split_top(body):
         part = part.strip()
         if not part:
             continue
@@ -248,6 +393,74 @@ def struct_fields(src, name):
             raise Unsupported("field of struct %s: %r" % (name, part))
         out[mm.group(1)] = " ".join(mm.group(2).split())
     return out
+
+
+def split_top(text):
+    """split at the commas that are not inside ( ) < > [ ]"""
+    parts, cur, depth = [], "", 0
+    for ch in text:
+        if ch in "(<[":
+            depth += 1
+        elif ch in ")>]":
+            depth -= 1
+        if ch == "," and depth == 0:
+            parts.append(cur)
+            cur = ""
+        else:
+            cur += ch
+    parts.append(cur)
+    return parts
+
+
+def newtype_scalar(src, name):
+    """T of `struct <name>(T);` with T an integer type (a newtype of a scalar: values of <name> are values of T), or None"""
+    m = re.search(r"\bstruct\s+%s\s*\(\s*(?:pub(?:\([^)]*\))?\s+)?(\w+)\s*\)\s*;" % re.escape(name), src)
+    return m.group(1) if m and m.group(1) in INT_TYPES else None
+
+
+def enum_variants(src, name):
+    """[(variant, payload text or None)] of `enum <name> { .. }` in declaration order"""
+    m = re.search(r"\benum\s+%s\s*\{" % re.escape(name), src)
+    if not m:
+        raise Unsupported("enum %s not found" % name)
+    body = src[m.end():match_brace(src, m.end() - 1) - 1]
+    body = re.sub(r"#\[[^\]]*\]", " ", body)
+    out = []
+    for part in split_top(body):
+        part = part.strip()
+        if not part:
+            continue
+        mm = re.match(r"(\w+)\s*(?:\((.*)\))?$", part, re.S)
+        if not mm:
+            raise Unsupported("variant of enum %s: %r" % (name, part))
+        out.append((mm.group(1), mm.group(2)))
+    return out
+
+
+def has_exit(x):
+    """does the expression / statement list contain a `?` or an explicit `return` (not counting closures and nested fns)"""
+    if isinstance(x, tuple):
+        if x and x[0] == "try":
+            return True
+        if len(x) == 3 and x[0] == "return" and x[2] == "explicit":
+            return True
+        if x and x[0] in ("closure", "closureN", "closure0", "localfn"):
+            return False
+        return any(has_exit(y) for y in x)
+    if isinstance(x, list):
+        return any(has_exit(y) for y in x)
+    return False
+
+
+def mentions(x, name):
+    """does the AST mention the variable `name`"""
+    if isinstance(x, tuple):
+        if len(x) == 2 and x[0] == "var" and x[1] == name:
+            return True
+        return any(mentions(y, name) for y in x)
+    if isinstance(x, list):
+        return any(mentions(y, name) for y in x)
+    return False
 
 
 def newtype_array(src, name):
@@ -398,6 +611,8 @@ class Parser:
                 self.eat("(")
                 params = []
                 while not self.at(")"):
+                    if self.at("mut"):
+                        self.eat()
                     n = self.eat()[1]
                     self.eat(":")
                     params.append((n, self.type_()))
@@ -439,6 +654,14 @@ class Parser:
                 self.eat(";")
                 stmts.append(("let", name, ty, e))
                 continue
+            if self.at("for"):
+                # `for x in e { .. }` (a statement)
+                self.eat()
+                var = self.eat()[1]
+                self.eat("in")
+                it = self.cond_expr()
+                stmts.append(("expr", ("for", var, it, self.block())))
+                continue
             if self.at("return"):
                 self.eat()
                 e = self.expr() if not self.at(";") else ("unit",)
@@ -446,7 +669,7 @@ class Parser:
                     self.eat()
                 stmts.append(("return", e, "explicit"))
                 continue
-            if self.at("debug_assert"):
+            if self.at("debug_assert") or self.at("debug_assert_eq") or self.at("debug_assert_ne"):
                 # debug_assert!(..): not part of the value; skipped (its condition is not an obligation here)
                 self.eat(); self.eat("!"); self.skip_parens(); self.eat(";")
                 continue
@@ -455,7 +678,7 @@ class Parser:
                 op = self.eat()[1]
                 rhs = self.expr()
                 self.eat(";")
-                if e[0] not in ("var", "field"):
+                if e[0] not in ("var", "field", "index"):
                     raise Unsupported("assignment to a non-variable")
                 if op != "=":
                     rhs = ("bin", op[0], e, rhs)
@@ -465,7 +688,7 @@ class Parser:
                 self.eat()
                 stmts.append(("expr", e))
                 continue
-            if e[0] == "if" and not self.at("}"):
+            if e[0] in ("if", "match") and not self.at("}"):
                 stmts.append(("expr", e))
                 continue
             # tail expression
@@ -488,9 +711,15 @@ class Parser:
     def type_(self):
         if self.at("&"):
             self.eat()
+            if self.at("'"):
+                self.eat(); self.eat()
             if self.at("mut"):
                 self.eat()
         name = self.eat()[1]
+        if name == "[":
+            inner = self.type_()
+            self.eat("]")
+            return ("slice", inner)
         if self.at("<"):
             self.eat()
             inner = self.type_()
@@ -501,7 +730,7 @@ class Parser:
             if name == "Option":
                 return ("opt", inner)
             if name == "Result":
-                return "result"
+                return "result" if inner in ("unit",) else ("resultof", inner)
             raise Unsupported("generic type %s" % name)
         if name == "(":
             if self.at(")"):
@@ -575,14 +804,24 @@ class Parser:
             if self.at("."):
                 self.eat()
                 name = self.eat()[1]
+                tf = None
+                if self.at("::") and self.at("<", 1):
+                    self.eat(); self.eat()
+                    tf = self.type_()
+                    self.eat(">")
                 if self.at("("):
-                    e = ("method", e, name, self.args())
+                    e = ("method", e, name, self.args()) if tf is None else ("method", e, name, self.args(), tf)
                 else:
                     e = ("field", e, name)
             elif self.at("?"):
-                raise Unsupported("? operator")
+                self.eat()
+                e = ("try", e)
             elif self.at("["):
                 self.eat()
+                if self.at(".") and self.at(".", 1) and self.at("]", 2):
+                    self.eat(); self.eat(); self.eat()
+                    e = ("fullslice", e)
+                    continue
                 idx = self.inner(self.expr)
                 self.eat("]")
                 e = ("index", e, idx)
@@ -669,6 +908,9 @@ class Parser:
             for _ in range(5):
                 self.eat()
             return ("default",)
+        if v == "||" and k == "op":
+            self.eat()
+            return ("closure0", self.expr())
         if v == "move" or v == "|":
             if v == "move":
                 self.eat()
@@ -692,6 +934,19 @@ class Parser:
             if len(params) == 1 and params[0][1] is None and ret is None:
                 return ("closure", params[0][0], body)
             return ("closureN", params, ret, body)
+        if v == "matches" and self.at("!", 1):
+            # `matches!(e, P1 | P2)` = `match e { P1 | P2 => true, _ => false }`
+            self.eat(); self.eat("!"); self.eat("(")
+            scrut = self.inner(self.expr)
+            self.eat(",")
+            pats = [self.pattern()]
+            while self.at("|"):
+                self.eat()
+                pats.append(self.pattern())
+            if self.at(","):
+                self.eat()
+            self.eat(")")
+            return ("match", scrut, [(pats, [("return", ("var", "true"))], None), ([("pwild",)], [("return", ("var", "false"))], None)])
         if v in ("unreachable", "panic") and self.at("!", 1):
             self.eat(); self.eat("!"); self.skip_parens()
             return ("panic",)
@@ -725,7 +980,11 @@ class Parser:
                     self.eat()
                     guard = self.expr()
                 self.eat("=>")
-                body = self.block() if self.at("{") else [("return", self.expr())]
+                if self.at("return"):
+                    self.eat()
+                    body = [("return", self.expr() if not (self.at(",") or self.at("}")) else ("unit",), "explicit")]
+                else:
+                    body = self.block() if self.at("{") else [("return", self.expr())]
                 if self.at(","):
                     self.eat()
                 arms.append((pats, body, guard))
@@ -758,8 +1017,9 @@ class Parser:
             self.eat()
             mh = re.match(r"(0x[0-9a-fA-F_]+?|0b[01_]+?)([iu](?:8|16|32|64|size))?$", v)
             if mh:
-                return ("plit", int(mh.group(1).replace("_", ""), 0))
-            return ("plit", int(re.match(r"[\d_]+", v).group(0).replace("_", "")))
+                return ("plit", int(mh.group(1).replace("_", ""), 0), mh.group(2))
+            ms = re.match(r"([\d_]+)([iu](?:8|16|32|64|size))?$", v)
+            return ("plit", int(ms.group(1).replace("_", "")), ms.group(2))
         if v == "_":
             self.eat()
             return ("pwild",)
@@ -849,6 +1109,8 @@ class Tr:
         self.ret = None
         self.localfns = {}          # local helper functions / closures: name -> (params, ret, body); inlined at calls
         self.fden = {}              # f64 variable -> denominator (a power of two): the variable holds the numerator
+        self.retk = []              # continuations of `return` inside inlined fns of the reader subset (None = value mode)
+        self.rkind = None           # reader subset: "result" / "resultdecoded" / "decoded" / "unit"
 
     # --- types
     def is_int(self, t):
@@ -899,6 +1161,8 @@ class Tr:
         if path in self.k.get("flags", {}):
             return "flags"
         if path in self.k.get("fields", {}) or path == "self" or path in [v[0] for v in self.k.get("structcalls", {}).values()]:
+            return "struct"
+        if path in self.k.get("pathtypes", {}):
             return "struct"
         return None
 
@@ -1035,6 +1299,8 @@ class Tr:
                     self.params.append((n, self.k["consts"][n]))
                 return n, self.k["consts"][n], None
             if n == "None":
+                if is_opt(want) and want[1] == "bytes":
+                    return "(none : Option (List Int))", want, None
                 return "(none : Option Int)", ("opt", want[1] if is_opt(want) else "lit"), None
             if n in ("true", "false"):
                 return n, "bool", None
@@ -1075,7 +1341,14 @@ class Tr:
                 if x[2][0] != "lit" or not (0 <= x[2][1] < n):
                     raise Unsupported("array index that is not a literal inside the array")
                 return "%s_%d" % (self.lname(x[1][1]), x[2][1]), ety, None
+            if x[1][0] == "var" and self.env.get(x[1][1]) == "bytes" and x[2][0] == "lit" and x[2][1] >= 0:
+                ln = self.lname(x[1][1])
+                return "(List.getD %s %d 0)" % (ln, x[2][1]), "u8", "decide (%d < %s.length)" % (x[2][1], ln)
             raise Unsupported("index expression")
+        if k == "try":
+            raise Unsupported("`?` in a position the translator does not move it out of")
+        if k in ("fullslice", "closure0", "for"):
+            raise Unsupported("%s used as a value" % k)
         if k == "islet":
             return self.islet(x[1], x[2])
         if k in ("structlit", "default"):
@@ -1147,6 +1420,10 @@ class Tr:
                 raise Unsupported("irrefutable `if let`")
             return "decide (%s)" % c, "bool", None
         path = self.resolve_path(scrut)
+        if (path is None or self.path_kind(path) != "opt") and self.cps() and pat[0] == "pctor" and pat[1] == "Some":
+            v, t, o = self.ev(scrut)
+            if is_opt(t) and isinstance(v, str):
+                return "(Option.isSome %s)" % v, "bool", o
         if path is None or self.path_kind(path) != "opt":
             raise Unsupported("`if let` on something that is not a declared Option field")
         sp = self.some_param(path)
@@ -1346,6 +1623,24 @@ class Tr:
 
     def call(self, x, want):
         p, args = x[1], x[2]
+        if self.cps():
+            if len(p) > 2 and p[0] == "crate":
+                p = p[-2:]
+            if p == ["Cow", "Owned"] and len(args) == 1:
+                v, t, o = self.e(args[0])
+                if t != "bytes":
+                    raise Unsupported("Cow::Owned of %s" % (t,))
+                return v, t, o
+            nt = self.k.get("newtypes", {})
+            ctor = self.k["impl"] if p == ["Self"] else (p[0] if len(p) == 1 else None)
+            if ctor in nt and len(args) == 1:
+                u = newtype_scalar(self.load(nt[ctor]), ctor)
+                if not u:
+                    raise Unsupported("%s is not a newtype of an integer" % ctor)
+                v, t, o = self.e(args[0], u)
+                if t not in (u, "lit") or not isinstance(v, str):
+                    raise Unsupported("%s(..) of %s" % (ctor, t))
+                return v, u, o
         if len(p) == 1 and p[0] in self.localfns:
             # a local helper: inlined.  Arguments are evaluated first (bound to temporaries), then the parameters are bound.
             params, ret, body = self.localfns[p[0]]
@@ -1367,10 +1662,12 @@ class Tr:
                 self.env[pn] = t
             vd, il = self.valdepth, self.in_local
             self.valdepth, self.in_local = 0, True      # `return` in the body of a local fn returns from that fn
+            self.retk.append(None)
             try:
                 bv, bt, bo = self.e(body, ret)
             finally:
                 self.valdepth, self.in_local = vd, il
+                self.retk.pop()
             self.env, self.fden = saved, fd
             if ret and ret != "lit" and bt != "f64":
                 bt = ret
@@ -1419,6 +1716,8 @@ class Tr:
                         v, t, o = self.e(a_, pt_)
                         if not isinstance(v, str):
                             raise Unsupported("argument of %s" % "::".join(p))
+                        if self.cps() and self.is_int(t) and self.is_int(pt_) and t != pt_:
+                            raise Unsupported("argument of type %s where %s takes %s" % (t, "::".join(p), pt_))
                         vals.append(v); oks.append(o)
                     self.used_groups.add(ex["group"])
                     return "(%s %s)" % (ln, " ".join(vals)), rt, self.conj(*(oks + ["%s_ok %s" % (ln, " ".join(vals))]))
@@ -1462,8 +1761,44 @@ class Tr:
             return "(%s %s)" % (ln, " ".join(vals)), rt, self.conj(*(oks + ["%s_ok %s" % (ln, " ".join(vals))]))
         raise Unsupported("method %s on %s" % (name, path))
 
+    def method_cps(self, x, want):
+        """methods of the reader subset (None = not one of them)"""
+        recv, name, args = x[1], x[2], x[3]
+        if recv[0] == "var" and isinstance(self.env.get(recv[1]), tuple) and self.env[recv[1]][0] == "reader" and not args:
+            off = self.env[recv[1]][1]
+            if name == "is_empty":
+                return "decide (body.length ≤ %d)" % off, "bool", None
+            if name == "len":
+                return "(Int.ofNat (body.length - %d))" % off, "usize", None
+            raise Unsupported("method %s on the byte reader" % name)
+        rp = self.resolve_path(recv)
+        if rp is not None and rp == self.k.get("body") and not args:
+            if name == "len":
+                return "(Int.ofNat body.length)", "usize", None
+            if name == "is_empty":
+                return "decide (body.length = 0)", "bool", None
+            if name == "clone":
+                return "body", "bytes", None
+            raise Unsupported("method %s on the chunk body" % name)
+        if recv[0] == "var" and self.env.get(recv[1]) == "bytes" and not args:
+            if name == "len":
+                return "(Int.ofNat %s.length)" % self.lname(recv[1]), "usize", None
+            if name == "is_empty":
+                return "decide (%s.length = 0)" % self.lname(recv[1]), "bool", None
+            raise Unsupported("method %s on a byte vector" % name)
+        if name == "to_be_bytes" and not args:
+            v, t, o = self.e(recv)
+            if not self.is_int(t):
+                raise Unsupported("to_be_bytes on %s" % (t,))
+            return ("opaque", v), "opaque", o
+        return None
+
     def method(self, x, want):
         recv, name, args = x[1], x[2], x[3]
+        if self.cps():
+            r_ = self.method_cps(x, want)
+            if r_ is not None:
+                return r_
         whole = self.resolve_path(x)
         if whole is not None and self.path_kind(whole) is not None:
             return ("ref", whole), ("ref", self.path_kind(whole), whole), None     # a call declared under `structcalls`
@@ -1539,6 +1874,9 @@ class Tr:
             b, tb, bo = self.e(args[0], t)
             op = {"wrapping_add": "+", "wrapping_sub": "-", "wrapping_mul": "*"}[name]
             return self.wrap(t, "(%s %s %s)" % (r, op, b)), t, self.conj(ro, bo)
+        if name == "saturating_mul" and self.cps() and self.is_int(t) and INT_TYPES[t][0] == 0:
+            b, tb, bo = self.e(args[0], t)
+            return "(min %d (%s * %s))" % (INT_TYPES[t][1], r, b), t, self.conj(ro, bo)
         if name in ("saturating_add", "saturating_sub"):
             b, tb, bo = self.e(args[0], t)
             lo, hi = INT_TYPES[t]
@@ -1749,6 +2087,8 @@ class Tr:
             elif "." in o:
                 obj, f = o.rsplit(".", 1)
                 tys.append(self.free_field(obj, f)[1])
+            elif o in self.k.get("effects", {}).values() or o in self.k.get("defaults", {}).values():
+                tys.append("bool")
             else:
                 tys.append("int")
         return tys
@@ -1932,6 +2272,10 @@ class Tr:
         if not ss:
             return self.finish()
         s, rest = ss[0], ss[1:]
+        if self.cps():
+            r_ = self.stmt_cps(s, rest, want)
+            if r_ is not None:
+                return r_
         if s[0] == "localfn" or (s[0] == "let" and s[3][0] == "closureN"):
             if s[0] == "localfn":
                 self.localfns[s[1]] = (s[2], s[3], s[4])
@@ -1953,6 +2297,12 @@ class Tr:
                 if pat[2][0] != "name":
                     raise Unsupported("pattern inside Some(..)")
                 path = self.resolve_path(scrut)
+                if (path is None or self.path_kind(path) != "opt") and self.cps():
+                    v, t, o = self.ev(scrut)
+                    if not (is_opt(t) and isinstance(v, str)):
+                        raise Unsupported("`if let Some(..)` on %s" % (t,))
+                    self.check_capture([pat[2][1]], rest)
+                    return self.stmts([("let", pat[2][1], t[1], ("rawlean", "(Option.getD %s 0)" % v, t[1]))] + rest, want)
                 self.env[pat[2][1]] = ("alias", path, pat[3])
                 if not pat[3]:
                     self.env[("copied", path)] = True
@@ -1996,6 +2346,8 @@ class Tr:
                     raise Unsupported("assignment to a field")
                 name, ann, ex = s[1][1], self.env.get(s[1][1]), s[2]
             v, t, o = self.ev(ex, ann)
+            if self.cps() and ann in INT_TYPES and t in INT_TYPES and t != ann:
+                raise Unsupported("a value of type %s bound to a name of type %s" % (t, ann))
             if ann and ann != "lit" and t != "f64":
                 t = ann
             if is_tup(t):
@@ -2013,6 +2365,14 @@ class Tr:
                 # the nested `if` of an `else if` chain that is a STATEMENT (something follows, or the chain has no final
                 # `else`): control continues with what follows
                 return self.stmts([("expr", s[1])] + rest, want)
+            if self.cps() and not self.k.get("plain") and self.valdepth == 0 and s[1][0] not in ("if", "match", "block"):
+                if self.retk and self.retk[-1] is not None:
+                    return self.retk[-1](s[1])
+                if self.k.get("arm_value") == "ignore" and len(s) == 2 and not self.in_local:
+                    # the value of a match arm translated on its own (not a result of the function): the arm was left normally
+                    return self.final_tuple("0", None)
+                if not self.in_local:
+                    return self.final_return(s[1], want)
             if s[1][0] == "unit" and self.k.get("outputs"):
                 return self.finish()
             if self.k.get("index") and s[1][0] == "method" and s[1][2] == "map":
@@ -2045,6 +2405,733 @@ class Tr:
                 return self.e(ex, want)
             raise Unsupported("expression statement without effect")
         raise Unsupported("statement %s" % s[0])
+
+    # ================================================================================================================
+    # the byte-reader subset (group Parsers): chunk parsers of `StreamingDecoder`.  Everything here is reached only for
+    # kernels declared with `cps=True`; nothing is guessed: what is not listed raises `Unsupported`.
+    # ================================================================================================================
+    def cps(self):
+        return bool(self.k.get("cps"))
+
+    def errcode(self, name):
+        errs = self.k.get("errors", [])
+        if name not in errs:
+            raise Unsupported("error %s is not declared for this kernel" % name)
+        return str(errs.index(name) + 1)
+
+    def eof_error(self):
+        """the `FormatErrorInner` that `parse_chunk` gives to an `UnexpectedEof` of `read_be` (read from the source of `parse_chunk`)"""
+        _, _, body = find_fn(self.load(self.k["file"]), self.k["impl"], "parse_chunk")
+        m = re.search(r"ErrorKind\s*::\s*UnexpectedEof\s*=>\s*\{[^{}]*?FormatErrorInner\s*::\s*(\w+)", body)
+        if not m:
+            raise Unsupported("parse_chunk: the mapping of UnexpectedEof was not found")
+        return m.group(1)
+
+    def check_read_be(self):
+        """`read_be` is the big-endian reader of src/traits.rs: `read_exact` of size_of::<T>() bytes, then `from_be_bytes`, for u8, u16, u32"""
+        if getattr(self, "_rb_checked", False):
+            return
+        src = re.sub(r"\s+", "", self.load("src/traits.rs"))
+        need = ["fnread_be(&mutself)->io::Result<$output_type>{letmutbytes=[0u8;std::mem::size_of::<$output_type>()];"
+                "self.read_exact(&mutbytes)?;Ok(<$output_type>::from_be_bytes(bytes))}",
+                "read_bytes_ext!(u8);", "read_bytes_ext!(u16);", "read_bytes_ext!(u32);"]
+        if not all(n in src for n in need):
+            raise Unsupported("src/traits.rs: read_be is not the big-endian reader the translator knows")
+        self._rb_checked = True
+
+    def norm_type(self, ty):
+        """type text of a struct field / payload -> scalar type of the translator, or None"""
+        ty = ty.strip()
+        if ty in INT_TYPES or ty == "bool" or ty in self.enums:
+            return ty
+        nt = self.k.get("newtypes", {})
+        if ty in nt:
+            u = newtype_scalar(self.load(nt[ty]), ty)
+            if not u:
+                raise Unsupported("%s is not a newtype of an integer" % ty)
+            return u
+        return None
+
+    def flat_fields(self, sname):
+        """[(flattened field name, scalar type)] of struct `sname` as declared in the source: tuple-typed fields `f: (A, B)` become
+        f_0, f_1; fields whose type is another declared struct are flattened with the prefix `f_`"""
+        out = []
+        for f, ty in self.struct_decl(sname).items():
+            t = self.norm_type(ty)
+            if t:
+                out.append((f, t))
+            elif ty.startswith("(") and ty.endswith(")"):
+                for i, c in enumerate([c for c in split_top(ty[1:-1]) if c.strip()]):
+                    tc = self.norm_type(c)
+                    if not tc:
+                        raise Unsupported("field %s: %s of %s" % (f, ty, sname))
+                    out.append(("%s_%d" % (f, i), tc))
+            elif ty in self.k.get("structs", {}):
+                out += [("%s_%s" % (f, g), tg) for g, tg in self.flat_fields(ty)]
+            else:
+                raise Unsupported("field %s: %s of %s" % (f, ty, sname))
+        return out
+
+    def struct_stmts(self, var, x):
+        """`let var = Name { f: e, .. }` as statements: one `let` per (flattened) field in the order of evaluation, then `mkstruct`"""
+        name, items, base = x[1], x[2], x[3]
+        if base is not None:
+            raise Unsupported("struct base in a reader kernel")
+        decl = self.struct_decl(name)
+        ss, loc, given = [], {}, []
+        for f, ex in items:
+            if f not in decl or f in given:
+                raise Unsupported("field %s of %s" % (f, name))
+            given.append(f)
+            ty = decl[f]
+            t = self.norm_type(ty)
+            if t:
+                ln = "%s__%s" % (var, f)
+                ss.append(("letcps", ln, t, ex))
+                loc[f] = (ln, t)
+            elif ty.startswith("(") and ty.endswith(")"):
+                comps = [c for c in split_top(ty[1:-1]) if c.strip()]
+                if ex[0] != "tuple" or len(ex[1]) != len(comps):
+                    raise Unsupported("value of the tuple field %s of %s" % (f, name))
+                for i, (c, it) in enumerate(zip(comps, ex[1])):
+                    tc = self.norm_type(c)
+                    if not tc:
+                        raise Unsupported("field %s: %s of %s" % (f, ty, name))
+                    ln = "%s__%s_%d" % (var, f, i)
+                    ss.append(("letcps", ln, tc, it))
+                    loc["%s_%d" % (f, i)] = (ln, tc)
+            elif ty in self.k.get("structs", {}):
+                if not (ex[0] == "var" and isinstance(self.env.get(ex[1]), tuple) and self.env[ex[1]][0] == "structlocal" and self.env[ex[1]][1] == ty):
+                    raise Unsupported("value of the struct field %s of %s" % (f, name))
+                for g, (lg, tg) in self.env[ex[1]][2].items():
+                    loc["%s_%s" % (f, g)] = (lg, tg)
+            else:
+                raise Unsupported("field %s: %s of %s" % (f, ty, name))
+        missing = [f for f in decl if f not in given]
+        if missing:
+            raise Unsupported("struct literal of %s without %s" % (name, ", ".join(missing)))
+        ss.append(("mkstruct", var, name, loc))
+        return ss
+
+    def check_capture(self, names, rest, keep=None):
+        """names bound inside a block / arm / inlined fn whose scope ends in Rust but not in the generated `let` chain: refused when
+        what follows still uses an outer variable of the same name"""
+        for n in names:
+            if n != keep and n in self.env and mentions(rest, n):
+                raise Unsupported("the inner binding %s would capture an outer variable used later" % n)
+
+    def ev_width(self):
+        """number of Int components that carry the payload of the `Decoded` event in the result"""
+        evs = self.k.get("events")
+        if not evs:
+            return 0
+        return max([self.ev_variant(v)[1] for v in evs if evs[v] != "ignore"] + [0])
+
+    def ev_variant(self, name):
+        """(tag = index of the variant in `enum Decoded` of the source, number of flattened payload components)"""
+        variants = enum_variants(self.load(self.k["file"]), "Decoded")
+        names = [v for v, _ in variants]
+        if name not in names:
+            raise Unsupported("Decoded::%s is not a variant" % name)
+        payload = dict(variants)[name]
+        w = 0
+        if payload and self.k["events"].get(name) != "ignore":
+            for c in [c.strip() for c in split_top(payload) if c.strip()]:
+                if self.norm_type(c):
+                    w += 1
+                elif c in self.k.get("structs", {}):
+                    w += len(self.flat_fields(c))
+                else:
+                    raise Unsupported("payload %s of Decoded::%s" % (c, name))
+        return names.index(name), w
+
+    def as_int(self, v, t):
+        return "(if %s then 1 else 0)" % v if t == "bool" else v
+
+    def event(self, x):
+        """`Decoded::V` / `Decoded::V(args)` -> ([tag, payload components .., padding zeros], ok)"""
+        evs = self.k.get("events")
+        if evs is None:
+            raise Unsupported("this kernel declares no events")
+        if x[0] == "path":
+            p, args = x[1], []
+        elif x[0] == "call":
+            p, args = x[1], x[2]
+        else:
+            raise Unsupported("result that is not a Decoded value")
+        if len(p) < 2 or p[-2] != "Decoded" or p[-1] not in evs:
+            raise Unsupported("event %s is not declared for this kernel" % "::".join(p))
+        tag, w = self.ev_variant(p[-1])
+        vals, oks = [], []
+        if evs[p[-1]] != "ignore":
+            for a in args:
+                if a[0] == "var" and isinstance(self.env.get(a[1]), tuple) and self.env[a[1]][0] == "structlocal":
+                    _, sname, loc = self.env[a[1]]
+                    for f, _t in self.flat_fields(sname):
+                        vals.append(self.as_int(loc[f][0], loc[f][1]))
+                else:
+                    v, t, o = self.ev(a)
+                    if not isinstance(v, str) or not (self.is_int(t) or t in self.enums or t in ("bool", "lit")):
+                        raise Unsupported("payload of %s" % p[-1])
+                    vals.append(self.as_int(v, t)); oks.append(o)
+            if len(vals) != w:
+                raise Unsupported("payload arity of Decoded::%s" % p[-1])
+        return [str(tag)] + vals + ["0"] * (self.ev_width() - len(vals)), self.conj(*oks)
+
+    def final_tuple(self, code, ev):
+        """the result of the function at an exit: [code,] [event tag, payload ..,] final values of the declared outputs"""
+        comps = []
+        if self.rkind in ("result", "resultdecoded"):
+            comps.append(code)
+        if self.k.get("events") is not None:
+            comps += ev if ev is not None else ["0"] * (1 + self.ev_width())
+        comps += self.output_values()
+        return ("(%s)" % ", ".join(comps)) if len(comps) > 1 else comps[0], ("withoutputs", "result"), None
+
+    def err_exit(self, code, want):
+        """leave with the error code `code` (a Lean term): through the continuation of an inlined fn, or out of the function"""
+        if self.retk and self.retk[-1] is not None:
+            return self.retk[-1](("errcode", code))
+        return self.final_tuple(code, None)
+
+    def final_return(self, e, want):
+        """`return e` / tail `e` at the end of a path through a cps kernel (e is not an if / match / block)"""
+        if e[0] == "call" and e[1] == ["Err"]:
+            v, _, o = self.e(e)
+            r = self.final_tuple(v, None)
+            return r[0], r[1], o
+        if e[0] == "call" and e[1] == ["Ok"] and len(e[2]) == 1 and self.rkind in ("result", "resultdecoded"):
+            if self.rkind == "result":
+                if e[2][0] != ("unit",):
+                    raise Unsupported("Ok(..) of a value")
+                return self.final_tuple("0", None)
+            ev, o = self.event(e[2][0])
+            r = self.final_tuple("0", ev)
+            return r[0], r[1], o
+        if self.rkind == "decoded":
+            ev, o = self.event(e)
+            r = self.final_tuple(None, ev)
+            return r[0], r[1], o
+        if self.rkind == "unit" and e == ("unit",):
+            return self.final_tuple(None, None)
+        raise Unsupported("result expression of a reader kernel")
+
+    def ite(self, c, a, b):
+        """(if c then a else b) for two (value, type, ok) triples"""
+        ok = None
+        if a[2] or b[2]:
+            ok = "(if %s then %s else %s)" % (c, a[2] or "true", b[2] or "true")
+        return "(if %s then %s else %s)" % (c, a[0], b[0]), (a[1] if a[1] != "lit" else b[1]), ok
+
+    def unwrap_chain(self, x):
+        """(path, [ok]) of `<Option<struct> path>.as_ref() / .as_mut() / .unwrap()` chains (an `unwrap` demands `is_some`), or None"""
+        oks = []
+        seen_unwrap = False
+        while x[0] == "method" and not x[3] and x[2] in ("as_ref", "as_mut", "unwrap"):
+            if x[2] == "unwrap":
+                seen_unwrap = True
+            x = x[1]
+        p = self.resolve_path(x)
+        if p is None or not seen_unwrap or self.path_kind(p) != "opt":
+            return None
+        return p, [self.some_param(p)]
+
+    def stmt_cps(self, s, rest, want):
+        """statements of the reader subset; None = not one of them (the general code continues)"""
+        k = s[0]
+        if k == "mkstruct":
+            self.env[s[1]] = ("structlocal", s[2], dict(s[3]))
+            return self.stmts(rest, want)
+        if k == "setdefault":
+            # the declared fields of <path> take the values new__f, the path becomes Some, the `defaults` output true
+            path, fs = s[1], s[2]
+            if ("copied", path) in self.env:
+                raise Unsupported("assignment to %s while a copy of it is in use" % path)
+            some = self.some_param(path)
+            binds = [(self.pname(path, f), self.lname("new__%s" % f), self.k["opts"][path][f]) for f in fs]
+            for f in fs:
+                self.free_field(path, f)
+            binds += [(some, "true", "bool"), (self.k["defaults"][path], "true", "bool")]
+            for bn, _, bt in binds:
+                self.env[bn] = bt
+            v, t, o = self.stmts(rest, want)
+            pre = "".join("(let %s := %s; " % (bn, bv) for bn, bv, _ in binds)
+            return pre + v + ")" * len(binds), t, (pre + o + ")" * len(binds)) if o else None
+        if k == "letcps":
+            name, ann, ex = s[1], s[2], s[3]
+            if has_exit(ex):
+                return self.let_cps(name, ann, ex, rest, want)
+            if name is None:
+                if ex == ("unit",):
+                    return self.stmts(rest, want)
+                if ex[0] == "block":
+                    return self.block_cps(None, None, list(ex[1]), rest, want)
+                return self.stmts([("expr", ex)] + rest, want)
+            return self.stmts([("let", name, ann, ex)] + rest, want)
+        if k == "let":
+            name, ann, ex = s[1], s[2], s[3]
+            if ex[0] == "fullslice" and self.resolve_path(ex[1]) == self.k.get("body"):
+                self.check_read_be()
+                self.env[name] = ("reader", 0)
+                return self.stmts(rest, want)
+            if ex[0] == "structlit":
+                return self.stmts(self.struct_stmts(name, ex) + rest, want)
+            uc = self.unwrap_chain(ex)
+            if uc:
+                # `let info = self.info.as_mut().unwrap();`: a name for the struct inside the Option (a panic site: `_ok` demands `Some`)
+                self.env[name] = ("alias", uc[0], True)
+                v, t, o = self.stmts(rest, want)
+                return v, t, self.conj(*(uc[1] + [o]))
+            if has_exit(ex):
+                return self.let_cps(name, ann, ex, rest, want)
+            if ex[0] == "method" and ex[2] == "to_be_bytes" and not ex[3]:
+                v, t, o = self.ev(ex)
+                self.env[name] = "opaque"           # only usable as the argument of an ignored call
+                v2, t2, o2 = self.stmts(rest, want)
+                return v2, t2, self.conj(o, o2)
+            return None
+        if k == "assign":
+            lhs, rhs = s[1], s[2]
+            if lhs[0] == "index":
+                if not (lhs[1][0] == "var" and self.env.get(lhs[1][1]) == "bytes" and lhs[2][0] == "lit"):
+                    raise Unsupported("assignment to an element")
+                v, t, o = self.ev(rhs, "u8")
+                if t not in ("u8", "lit") or not isinstance(v, str):
+                    raise Unsupported("value stored in a byte vector")
+                ln = self.lname(lhs[1][1])
+                r = self.bind(lhs[1][1], "(List.set %s %d %s)" % (ln, lhs[2][1], v), "bytes", rest, want,
+                              self.conj(o, "decide (%d < %s.length)" % (lhs[2][1], ln)))
+                return r
+            if has_exit(rhs):
+                pre, rhs2 = self.hoist(rhs)
+                if not pre:
+                    raise Unsupported("`?` / `return` in an assigned value")
+                return self.stmts(pre + [("assign", lhs, rhs2)] + rest, want)
+            if lhs[0] == "field":
+                uc = self.unwrap_chain(lhs[1])
+                if uc:
+                    # `self.info.as_mut().unwrap().f = e`
+                    alias = "unwrapped__%s" % uc[0].replace(".", "_")
+                    self.env[alias] = ("alias", uc[0], True)
+                    v, t, o = self.stmts([("assign", ("field", ("var", alias), lhs[2]), rhs)] + rest, want)
+                    return v, t, self.conj(*(uc[1] + [o]))
+                obj = self.resolve_path(lhs[1])
+                full = (obj + "." + lhs[2]) if obj else None
+                if full and self.path_kind(full) == "opt" and rhs[0] == "method" and rhs[2] == "ok" and not rhs[3] and \
+                        rhs[1][0] == "call" and len(rhs[1][1]) == 1 and rhs[1][1][0] in self.localfns:
+                    return self.inline_ok(lhs, rhs[1], rest, want)
+                if full and full in self.k.get("ignore_assign", []):
+                    return self.stmts(rest, want)
+                if full and self.path_kind(full) == "opt" and rhs[0] == "call" and rhs[1] == ["Some"] and len(rhs[2]) == 1 and \
+                        rhs[2][0][0] == "structlit" and rhs[2][0][3] == ("default",):
+                    return self.assign_default(full, rhs[2][0], rest, want)
+            return None
+        if k == "expr":
+            ex = s[1]
+            if ex[0] == "try":
+                return self.let_cps(None, None, ex, rest, want)
+            if ex[0] == "for":
+                return self.for_any(ex[1], ex[2], ex[3], rest, want)
+            if ex[0] in ("match", "block") and has_exit(ex):
+                return self.let_cps(None, None, ex, rest, want)
+            if ex[0] == "if" and has_exit(ex[1]):
+                raise Unsupported("`?` in a condition")
+            if ex[0] == "method":
+                rp = self.resolve_path(ex[1])
+                key = "%s.%s" % (rp, ex[2]) if rp else None
+                if key and key in self.k.get("effects", {}):
+                    if ex[3]:
+                        raise Unsupported("arguments of %s" % key)
+                    return self.bind(self.k["effects"][key], "true", "bool", rest, want, None)
+                if key and key in self.k.get("ignore_calls", []):
+                    oks = []
+                    for a in ex[3]:
+                        if a[0] == "var" and self.env.get(a[1]) == "opaque":
+                            continue
+                        v, t, o = self.ev(a)
+                        oks.append(o)
+                    v, t, o = self.stmts(rest, want)
+                    return v, t, self.conj(*(oks + [o]))
+                if ex[1][0] == "var" and self.env.get(ex[1][1]) == "bytes" and ex[2] == "truncate" and len(ex[3]) == 1 and ex[3][0][0] == "lit":
+                    ln = self.lname(ex[1][1])
+                    return self.bind(ex[1][1], "(List.take %d %s)" % (ex[3][0][1], ln), "bytes", rest, want, None)
+            return None
+        return None
+
+    def assign_default(self, path, lit, rest, want):
+        """`<Option<struct> field> = Some(Name { f: e, .., ..Default::default() })` where only some fields of Name are declared for the kernel:
+        the written fields must be declared; a declared field that is not written takes its value from `impl Default for Name`; every
+        other field must be `None` / `Vec::new()` there, and the Bool output declared under `defaults` for this path records that"""
+        name, items = lit[1], lit[2]
+        if path not in self.k.get("defaults", {}):
+            raise Unsupported("%s = Some(%s { .., ..Default::default() }) without a `defaults` output" % (path, name))
+        decl = self.k["opts"][path]
+        sdecl = self.struct_decl(name)
+        _, _, body = find_fn(self.load(self.k["structs"][name]), "Default for %s" % name, "default")
+        st = Parser(lex(body)).block()
+        if len(st) != 1 or st[0][0] != "return" or st[0][1][0] != "structlit" or st[0][1][1] not in (name, "Self") or st[0][1][3] is not None:
+            raise Unsupported("Default for %s is not one struct literal" % name)
+        dflt = dict(st[0][1][2])
+        written = [f for f, _ in items]
+        ss = []
+        for f, ex in items:
+            if f not in decl or f not in sdecl or written.count(f) != 1:
+                raise Unsupported("field %s of %s is written but not declared for this kernel" % (f, name))
+            if self.norm_type(sdecl[f]) != decl[f]:
+                raise Unsupported("field %s: %s of %s" % (f, sdecl[f], name))
+            ss.append(("letcps", "new__%s" % f, decl[f], ex))
+        sub = [q for q in self.k["opts"] if q.startswith(path + ".")]
+        for f in sdecl:
+            if f in written:
+                continue
+            if f not in dflt:
+                raise Unsupported("Default for %s has no field %s" % (name, f))
+            if f in decl:
+                if is_opt(decl[f]):
+                    if dflt[f] != ("var", "None"):
+                        raise Unsupported("default of %s.%s" % (name, f))
+                    ss.append(("letcps", "new__%s" % f, decl[f], ("var", "None")))
+                else:
+                    if dflt[f][0] not in ("lit", "path", "var") or self.norm_type(sdecl[f]) != decl[f]:
+                        raise Unsupported("default of %s.%s" % (name, f))
+                    ss.append(("letcps", "new__%s" % f, decl[f], dflt[f]))
+            elif path + "." + f in sub:
+                if dflt[f] != ("var", "None"):
+                    raise Unsupported("default of %s.%s" % (name, f))
+                ss.append(("assign", ("field",) + tuple(self.path_ast(path + "." + f)), ("var", "None")))
+            elif not (dflt[f] == ("var", "None") or (dflt[f][0] == "call" and dflt[f][1] == ["Vec", "new"] and not dflt[f][2])):
+                raise Unsupported("default of %s.%s is not None / Vec::new()" % (name, f))
+        ss.append(("setdefault", path, [f for f in decl]))
+        return self.stmts(ss + rest, want)
+
+    def hoist(self, ex):
+        """move the sub-expressions of ex that contain a `?` / `return` (and the ones evaluated before them) into `let`s in the order of
+        evaluation: ([statements], expression over the new names)"""
+        pre = []
+
+        def tmp(sub):
+            self.ntmp = getattr(self, "ntmp", 0) + 1
+            n = "h__%d" % self.ntmp
+            pre.append(("letcps", n, None, sub))
+            return ("var", n)
+
+        def seq(items):
+            last = max([i for i, it in enumerate(items) if has_exit(it)] + [-1])
+            return [(tmp(it) if (i <= last and it[0] not in ("lit", "path")) else it) for i, it in enumerate(items)]
+
+        k = ex[0]
+        if k == "call":
+            return pre, ("call", ex[1], seq(ex[2])) if True else None
+        if k == "method":
+            items = seq([ex[1]] + list(ex[3]))
+            return pre, ("method", items[0], ex[2], items[1:]) + tuple(ex[4:])
+        if k == "tuple":
+            return pre, ("tuple", seq(ex[1]))
+        if k in ("cast",):
+            return pre, ("cast", seq([ex[1]])[0], ex[2])
+        if k in ("not", "neg", "try"):
+            return pre, (k, seq([ex[1]])[0])
+        if k == "bin":
+            if ex[1] in ("&&", "||") and has_exit(ex[3]):
+                raise Unsupported("`?` / `return` on the right of a short-circuit operator")
+            items = seq([ex[2], ex[3]])
+            return pre, ("bin", ex[1], items[0], items[1])
+        if k == "field":
+            return pre, ("field", seq([ex[1]])[0], ex[2])
+        raise Unsupported("`?` / `return` inside %s" % k)
+
+    def let_cps(self, name, ann, ex, rest, want):
+        """`let name = ex; rest` where ex contains a `?` or an explicit `return`: the rest moves into the paths that continue"""
+        if self.valdepth > 0:
+            raise Unsupported("`?` / `return` inside an expression whose value is used")
+        k = ex[0]
+        if k == "try":
+            return self.try_cps(name, ann, ex[1], rest, want)
+        if k == "block":
+            return self.block_cps(name, ann, list(ex[1]), rest, want)
+        if k == "if":
+            if ex[3] is None:
+                if name is not None:
+                    raise Unsupported("if without else bound to a name")
+                return self.stmts([("expr", ex)] + rest, want)
+            if has_exit(ex[1]):
+                raise Unsupported("`?` in a condition")
+            c, _, co = self.ev(ex[1], "bool")
+            env0, fd0 = dict(self.env), dict(self.fden)
+            a = self.block_cps(name, ann, list(ex[2]), rest, want)
+            self.env, self.fden = dict(env0), dict(fd0)
+            b = self.block_cps(name, ann, list(ex[3]), rest, want)
+            self.env, self.fden = env0, fd0
+            v, t, o = self.ite(c, a, b)
+            return v, t, self.conj(co, o)
+        if k == "match":
+            scrut = ex[1]
+            if has_exit(scrut):
+                # the scrutinee is evaluated first; the type of a `read_be()` there is the suffix of a literal pattern (`0u8 => ..`)
+                sty = None
+                for pats, _, _ in ex[2]:
+                    for p in pats:
+                        if p[0] == "plit" and len(p) > 2 and p[2]:
+                            sty = p[2]
+                self.ntmp = getattr(self, "ntmp", 0) + 1
+                tmpn = "scrut__%d" % self.ntmp
+                return self.stmts([("letcps", tmpn, sty, scrut), ("letcps", name, ann, ("match", ("var", tmpn), ex[2]))] + rest, want)
+            arms = []
+            for pats, body, guard in ex[2]:
+                bound = [p[1] for p in pats if p[0] == "pbind"] + [p[2][1] for p in pats if p[0] == "pctor" and p[2] and p[2][0] == "name"]
+                self.check_capture(bound, rest, name)
+                arms.append((pats, [("letcps", name, ann, ("block", body))] + rest, guard))
+            return self.match(("match", scrut, arms), want)
+        pre, ex2 = self.hoist(ex)
+        if not pre:
+            raise Unsupported("`?` / `return` inside %s" % k)
+        return self.stmts(pre + [("letcps", name, ann, ex2)] + rest, want)
+
+    def block_cps(self, name, ann, body, rest, want):
+        """`let name = { body }; rest`"""
+        if not body:
+            if name is not None:
+                raise Unsupported("empty block bound to a name")
+            return self.stmts(rest, want)
+        last = body[-1]
+        if last[0] == "return" and len(last) > 2 and last[2] == "explicit":
+            return self.stmts(body, want)               # this path leaves the function: what follows is not reached
+        bound = [st[1] for st in body if st[0] in ("let", "letcps") and isinstance(st[1], str)] + \
+                [st[1][2][1] for st in body if st[0] == "bindpat" and st[1][0] == "pctor" and st[1][2] and st[1][2][0] == "name"]
+        self.check_capture(bound, rest, name)
+        if last[0] == "return":
+            return self.stmts(body[:-1] + [("letcps", name, ann, last[1])] + rest, want)
+        if name is not None:
+            raise Unsupported("a block without a value bound to a name")
+        return self.stmts(body + rest, want)
+
+    def infer_read_type(self, name, rest):
+        """the integer type of the unannotated `let name = buf.read_be()?` from its first DETERMINING use in what follows, in program order
+        (Rust gives the variable one type, so any determining use gives it): the value initialises a struct field (`Name { f: name }` /
+        `Name { name }`: the declared type of f), or is an argument of a translated function (`T::f(name)`: its parameter type).  The search
+        stops where the name is bound again.  None = not determined this way."""
+        found = []
+
+        def use(x):
+            """scan an expression"""
+            if found or not isinstance(x, (tuple, list)):
+                return
+            if isinstance(x, tuple) and x and x[0] == "structlit":
+                try:
+                    decl = self.struct_decl(x[1])
+                except Unsupported:
+                    decl = {}
+                for f, ex in x[2]:
+                    if ex == ("var", name) and f in decl:
+                        t = self.norm_type(decl[f])
+                        if t in INT_TYPES:
+                            found.append(t)
+                            return
+            if isinstance(x, tuple) and x and x[0] == "call" and len(x[1]) >= 2:
+                pth = x[1][-2:] if x[1][0] == "crate" else x[1]
+                for ln, (impl, fn, pn, pt, rt, ex) in self.sigs.items():
+                    if len(pth) == 2 and ex["rawimpl"] == pth[0] and fn == pth[1] and all(o_[0] == "arg" for o_ in ex["origins"]) and len(pn) == len(x[2]):
+                        for a_, pt_ in zip(x[2], pt):
+                            if a_ == ("var", name) and pt_ in INT_TYPES:
+                                found.append(pt_)
+                                return
+            for y in x:
+                use(y)
+
+        def stmts_(ss):
+            """scan statements in order; True = the name was bound again (stop)"""
+            for st in ss:
+                if found:
+                    return True
+                if isinstance(st, tuple) and st and st[0] in ("let", "letcps") and st[1] == name:
+                    use(st[3])
+                    return True
+                use(st)
+            return False
+
+        stmts_(rest)
+        return found[0] if found else None
+
+    def try_cps(self, name, ann, inner, rest, want):
+        """`let name = inner?; rest`"""
+        # (1) a read of the byte reader
+        if inner[0] == "method" and inner[2] == "read_be" and not inner[3] and inner[1][0] == "var" and \
+                isinstance(self.env.get(inner[1][1]), tuple) and self.env[inner[1][1]][0] == "reader":
+            ty = inner[4] if len(inner) > 4 else (ann or self.k.get("reads", {}).get(name) or (self.infer_read_type(name, rest) if name else None))
+            if ty not in ("u8", "u16", "u32"):
+                raise Unsupported("the width of the read_be() bound to %s cannot be determined" % name)
+            w = {"u8": 1, "u16": 2, "u32": 4}[ty]
+            off = self.env[inner[1][1]][1]
+            errv = self.err_exit(self.errcode(self.eof_error()) if not (self.retk and self.retk[-1] is not None) else "0", want)
+            self.env[inner[1][1]] = ("reader", off + w)
+            val = "(beU%d body %d)" % (8 * w, off)
+            r = self.bind(name, val, ty, rest, want, None) if name is not None else self.stmts(rest, want)
+            return self.ite("decide (%d ≤ body.length)" % (off + w), r, errv)
+        # (2) `x.ok_or(..)?` / `x.ok_or_else(|| ..)?` on an Option value
+        if inner[0] == "method" and inner[2] in ("ok_or", "ok_or_else") and len(inner[3]) == 1:
+            v, t, o = self.ev(inner[1])
+            if not (is_opt(t) and isinstance(v, str)):
+                raise Unsupported("ok_or on %s" % (t,))
+            arg = inner[3][0]
+            names = re.findall(r"[A-Za-z_]\w*", json.dumps(arg))
+            code = None
+            for en in self.k.get("errors", []):
+                if en in names:
+                    code = self.errcode(en)
+                    break
+            if code is None:
+                raise Unsupported("ok_or(..) with an error name that is not declared for this kernel")
+            self.ntmp = getattr(self, "ntmp", 0) + 1
+            tmpn = "opt__%d" % self.ntmp
+            errv = self.err_exit(code, want)
+            r = self.bind(name, "(Option.getD %s 0)" % tmpn, t[1], rest, want, None) if name is not None else self.stmts(rest, want)
+            iv, it, io = self.ite("(Option.isSome %s)" % tmpn, r, errv)
+            return "(let %s := %s; %s)" % (tmpn, v, iv), it, self.conj(o, "(let %s := %s; %s)" % (tmpn, v, io) if io else None)
+        # (3) the call of a translated function with a `Result<(), _>`: its error is this function's error of the same name
+        if inner[0] == "method":
+            return self.call_try(name, inner, rest, want)
+        raise Unsupported("`?` on this expression")
+
+    def call_try(self, name, inner, rest, want):
+        """`<path>.f(args)?` for a translated f (result code, maybe outputs that are fields of <path>)"""
+        recv, fname, args = inner[1], inner[2], inner[3]
+        oks = []
+        uc = self.unwrap_chain(recv)
+        if uc:
+            path, oks = uc[0], list(uc[1])
+        else:
+            path = self.resolve_path(recv)
+        owner = self.k.get("pathtypes", {}).get(path) if path else None
+        if owner is None:
+            raise Unsupported("`?` on a call whose receiver has no declared type")
+        for ln, (impl, fn, pn, pt, rt, ex) in self.sigs.items():
+            if ex["rawimpl"] != owner or fn != fname:
+                continue
+            if rt != "result":
+                raise Unsupported("`?` on %s, which has no Result<(), _>" % ln)
+            rparams = ex.get("rparams", [])
+            if len(rparams) != len(args):
+                raise Unsupported("arity of %s" % fname)
+            tr = lambda q: (path + q[4:]) if (q == "self" or q.startswith("self.")) else q
+            vals = []
+            for pn_, pt_, og in zip(pn, pt, ex["origins"]):
+                if og[0] == "arg":
+                    v, t, o = self.ev(args[ex["argpos"][og[1]]], pt_)
+                    if not isinstance(v, str) or (self.is_int(t) and self.is_int(pt_) and t != pt_):
+                        raise Unsupported("argument of %s" % fname)
+                    oks.append(o)
+                elif og[0] == "field" and og[1] in [r_[0] for r_ in rparams]:
+                    a = args[[r_[0] for r_ in rparams].index(og[1])]
+                    if not (a[0] == "var" and isinstance(self.env.get(a[1]), tuple) and self.env[a[1]][0] == "structlocal"):
+                        raise Unsupported("struct argument of %s" % fname)
+                    loc = self.env[a[1]][2]
+                    if og[2] not in loc or loc[og[2]][1] != pt_:
+                        raise Unsupported("field %s of the struct argument of %s" % (og[2], fname))
+                    v = loc[og[2]][0]
+                elif og[0] == "field":
+                    v, t = self.free_field(tr(og[1]), og[2])
+                    if t != pt_:
+                        raise Unsupported("field %s.%s has type %s here and %s in %s" % (tr(og[1]), og[2], t, pt_, ln))
+                elif og[0] == "some":
+                    v = self.some_param(tr(og[1]))
+                else:
+                    raise Unsupported("%s has a parameter (%s) that cannot be passed on" % (ln, pn_))
+                vals.append(v)
+            self.used_groups.add(ex["group"])
+            call = "(%s %s)" % (ln, " ".join(vals))
+            oks.append("%s_ok %s" % (ln, " ".join(vals)))
+            self.ntmp = getattr(self, "ntmp", 0) + 1
+            res = "res__%d" % self.ntmp
+            outs = ex.get("outlist", [])
+            # the callee's outputs are fields of its `self`: they become the caller's fields of <path> (also when it fails)
+            code = res if not outs else "%s.1" % res
+            binds = []
+            for i, o_ in enumerate(outs):
+                if not (o_.startswith("self.") and "?" not in o_):
+                    raise Unsupported("output %s of %s" % (o_, ln))
+                obj, f = tr(o_).rsplit(".", 1)
+                pnm, pty = self.free_field(obj, f)
+                proj = "%s%s" % (res, ".2" * (i + 1) + (".1" if i < len(outs) - 1 else ""))
+                binds.append((self.pname(obj, f), proj, pty))
+            for bn, _, bt in binds:
+                self.env[bn] = bt
+            cerrs = ex.get("errors", [])
+            if not cerrs:
+                raise Unsupported("%s has no errors" % ln)
+            mapped = "0"
+            for i in reversed(range(len(cerrs))):
+                c_ = self.errcode(cerrs[i])
+                mapped = c_ if (i == len(cerrs) - 1) else "(if %s = %d then %s else %s)" % (code, i + 1, c_, mapped)
+            errv = self.err_exit(mapped, want)
+            r = self.stmts(rest, want)
+            iv, it, io = self.ite("decide (%s = 0)" % code, r, errv)
+            lets = "(let %s := %s; " % (res, call) + "".join("(let %s := %s; " % (bn, bp) for bn, bp, _ in binds)
+            close = ")" * (1 + len(binds))
+            return lets + iv + close, it, self.conj(*(oks + [(lets + io + close) if io else None]))
+        raise Unsupported("method %s on %s" % (fname, path))
+
+    def for_any(self, var, it, body, rest, want):
+        """`for x in &v { if c { return Err(..) } }` over a byte vector: leaves with the error iff some element satisfies c (which element
+        is found first only matters for the error's payload, which is not part of the result)"""
+        v, t, o = self.ev(it)
+        if t != "bytes" or not isinstance(v, str):
+            raise Unsupported("for over %s" % (t,))
+        if not (len(body) == 1 and body[0][0] in ("expr", "return") and body[0][1][0] == "if" and body[0][1][3] is None and len(body[0][1][2]) == 1
+                and body[0][1][2][0][0] == "return" and body[0][1][2][0][1][0] == "call" and body[0][1][2][0][1][1] == ["Err"]):
+            raise Unsupported("body of a for loop that is not `if c { return Err(..) }`")
+        iff = body[0][1]
+        saved = dict(self.env)
+        self.env[var] = "u8"
+        c, ct, co = self.ev(iff[1], "bool")
+        errv = self.stmts(list(iff[2]), want)
+        self.env = saved
+        r = self.stmts(rest, want)
+        ln = self.lname(var)
+        iv, ity, io = self.ite("(List.any %s (fun %s => %s))" % (v, ln, c), errv, r)
+        return iv, ity, self.conj(o, "(List.all %s (fun %s => %s))" % (v, ln, co) if co else None, io)
+
+    def inline_ok(self, lhs, callx, rest, want):
+        """`<Option<struct> field> = f(<body slice>).ok();` for a local fn f with a `Result<Struct, _>`: f is inlined; `Ok(s)` stores
+        `Some(s)`, every `Err(..)` and every failed `?` stores `None`"""
+        params, ret, body = self.localfns[callx[1][0]]
+        if len(params) != 1 or params[0][1] != ("slice", "u8") or len(callx[2]) != 1:
+            raise Unsupported("inlined fn that does not take the chunk body")
+        a = callx[2][0]
+        if not (a[0] == "fullslice" and self.resolve_path(a[1]) == self.k.get("body")):
+            raise Unsupported("argument of the inlined fn is not the chunk body")
+        if not (isinstance(ret, tuple) and ret[0] == "resultof"):
+            raise Unsupported("inlined fn without a Result")
+        self.check_read_be()
+        stm = list(body[1])
+        bound = [params[0][0]] + [st[1] for st in stm if st[0] in ("let", "letcps") and isinstance(st[1], str)]
+        self.check_capture(bound, rest)
+        saved = dict(self.env)
+        self.env[params[0][0]] = ("reader", 0)
+
+        def K(e):
+            self.retk.pop()
+            try:
+                if e[0] == "errcode" or (e[0] == "call" and e[1] == ["Err"]):
+                    ss = [("assign", lhs, ("var", "None"))] + rest
+                elif e[0] == "call" and e[1] == ["Ok"] and len(e[2]) == 1 and e[2][0][0] == "structlit":
+                    self.ntmp = getattr(self, "ntmp", 0) + 1
+                    tmpn = "ok__%d" % self.ntmp
+                    ss = self.struct_stmts(tmpn, e[2][0]) + [("assign", lhs, ("call", ["Some"], [("var", tmpn)]))] + rest
+                elif e[0] == "call" and e[1] == ["Ok"] and len(e[2]) == 1 and e[2][0][0] == "var":
+                    ss = [("assign", lhs, ("call", ["Some"], [e[2][0]]))] + rest
+                else:
+                    raise Unsupported("result of the inlined fn")
+                return self.stmts(ss, want)
+            finally:
+                self.retk.append(K)
+
+        self.retk.append(K)
+        try:
+            r = self.stmts(stm, want)
+        finally:
+            self.retk.pop()
+            self.env = saved
+        return r
 
 
 def parse_params(text, impl, enums):
@@ -2086,6 +3173,10 @@ def lean_type(t):
     """Lean type of a value of the (translator's) Rust type t"""
     if t == "bool":
         return "Bool"
+    if t == "bytes":
+        return "List Int"
+    if is_opt(t) and t[1] == "bytes":
+        return "Option (List Int)"
     if is_opt(t):
         return "Option Int"
     if is_tup(t):
@@ -2124,13 +3215,32 @@ def translate_all():
                 srcs[path] = strip_comments(open(path).read())
             params_text, ret, body = find_fn(srcs[path], k["impl"], k["fn"])
             impl_ty = k["impl"] if k["impl"] in enums else None
+            if k.get("arm"):
+                # one arm `<pattern> => { .. }` of a `match` of the function, translated as a function of its own: the scalar values it uses
+                # from the enclosing function are the declared `args`
+                ms_ = list(re.finditer(re.escape(k["arm"]).replace(r"\ ", r"\s*") + r"\s*=>\s*\{", body))
+                if len(ms_) != 1:
+                    raise Unsupported("arm %s of %s not found (or not unique)" % (k["arm"], k["fn"]))
+                body = body[ms_[0].end() - 1:match_brace(body, ms_[0].end() - 1)]
+                params_text = "&mut self"
             params = parse_params(params_text, impl_ty, enums)
             tr = Tr(k, enums, sigs, load)
             tr.self_ty = impl_ty
             lean_params = []
             origins = []
             nargs = 0
-            for (n, t) in params:
+            argpos = []
+            rparams = [(n_, t_) for (n_, t_) in params if n_ != "self"]
+            if k.get("cps"):
+                if k.get("body"):
+                    lean_params.append(("body", "bytes"))
+                    origins.append(("body",))
+                for n_, t_ in k.get("args", {}).items():
+                    tr.env[n_] = t_
+                    lean_params.append((tr.lname(n_), t_))
+                    origins.append(("arg", nargs))
+                    nargs += 1
+            for pi_, (n, t) in enumerate(params):
                 if n == "self":
                     if impl_ty:
                         lean_params.append(("self_", impl_ty))
@@ -2150,6 +3260,7 @@ def translate_all():
                     tr.env[n] = t
                     lean_params.append((tr.lname(n), t))
                     origins.append(("arg", nargs))
+                    argpos.append([n_ for n_, _ in rparams].index(n))
                     nargs += 1
                 elif n in k.get("fields", {}):
                     continue
@@ -2186,12 +3297,25 @@ def translate_all():
                 ret_ty = k["impl"]
             if is_opt(ret_ty) and ret_ty[1] == "Self":
                 ret_ty = ("opt", k["impl"])
+            if isinstance(ret_ty, str) and ret_ty in k.get("newtypes", {}):
+                ret_ty = newtype_scalar(load(k["newtypes"][ret_ty]), ret_ty) or ret_ty
             stmts = Parser(lex(body)).block()
+            if k.get("cps"):
+                tr.rkind = {"result": "result", ("resultof", "Decoded"): "resultdecoded", "Decoded": "decoded", "unit": "unit"}.get(ret_ty)
+                if tr.rkind is None and not k.get("plain"):
+                    raise Unsupported("return type %s of a reader kernel" % (ret_ty,))
+                for en_ in list(k.get("effects", {}).values()) + list(k.get("defaults", {}).values()):
+                    tr.env[en_] = "bool"
             val, ty, ok = tr.stmts(stmts, ret_ty)
+            if k.get("cps"):
+                for en_ in reversed(list(k.get("effects", {}).values()) + list(k.get("defaults", {}).values())):
+                    val = "(let %s := false; %s)" % (en_, val)
+                    ok = "(let %s := false; %s)" % (en_, ok) if ok else ok
             all_params = lean_params + tr.params
             origins = origins + [tr.origin.get(p[0], ("free", p[0])) for p in tr.params]
             extra = dict(group=k["group"], rawimpl=k["impl"], origins=origins, outputs=bool(k.get("outputs")),
-                         flagtypes={q: v[0] for q, v in k.get("flags", {}).items()})
+                         flagtypes={q: v[0] for q, v in k.get("flags", {}).items()},
+                         rparams=rparams, argpos=argpos, outlist=list(k.get("outputs", [])), errors=list(k.get("errors", [])))
             sigs[k["lean"]] = (k["impl"] if k["impl"] in enums else None, k["fn"], [p[0] for p in all_params], [p[1] for p in all_params], ret_ty, extra)
             lean_ret = "Bool" if ret_ty == "bool" else ("Option Int" if is_opt(ret_ty) else (lean_type(ret_ty) if is_tup(ret_ty) else "Int"))
             if ty == "outputs":
@@ -2199,9 +3323,17 @@ def translate_all():
             elif k.get("outputs") and ret_ty != "unit":
                 lean_ret = " × ".join([lean_ret] + [("Bool" if t_ == "bool" else "Int") for t_ in tr.output_types()])
             binder = lambda p: "(%s : %s)" % (p[0], "Bool" if p[1] == "bool" else "Int")
+            if k.get("cps") and not k.get("plain"):
+                comps_ = (["Int"] if tr.rkind in ("result", "resultdecoded") else []) + \
+                         (["Int"] * (1 + tr.ev_width()) if k.get("events") is not None else []) + [lean_type(t_) for t_ in tr.output_types()]
+                lean_ret = " × ".join(comps_) if comps_ else "Unit"
+            if k.get("cps"):
+                binder = lambda p: "(%s : %s)" % (p[0], lean_type(p[1]))
             sig = " ".join(binder(p) for p in all_params)
-            doc = "/-- `%s%s` (%s), parameters %s -/" % ((k["impl"] + "::") if k["impl"] else "", k["fn"], k["file"],
-                                                         ", ".join("%s : %s" % (p[0], p[1]) for p in all_params))
+            tname = lambda t_: ("Option<%s>" % t_[1]) if is_opt(t_) else t_
+            doc = "/-- `%s%s` (%s)%s, parameters %s -/" % ((k["impl"] + "::") if k["impl"] else "", k["fn"], k["file"],
+                                                           (", the arm `%s`" % k["arm"]) if k.get("arm") else "",
+                                                           ", ".join("%s : %s" % (p[0], tname(p[1])) for p in all_params))
             defs.append((k["group"], "%s\ndef %s %s : %s :=\n  %s\n\n/-- no overflow, no division by zero, no panic on this run -/\ndef %s_ok %s : Bool :=\n  %s\n" % (
                 doc, k["lean"], sig, lean_ret, val, k["lean"], sig, ok or "true")))
             results.append((k["group"], k["lean"]))
@@ -2235,6 +3367,21 @@ def optLt : Option Int → Option Int → Bool
 '''
 
 
+BE = '''/-- `read_be::<u8>()` at offset `k` of the chunk body (src/traits.rs: `read_exact` of one byte, `u8::from_be_bytes`) -/
+def beU8 (body : List Int) (k : Nat) : Int := body.getD k 0
+
+/-- `read_be::<u16>()` at offset `k`: two bytes, most significant first -/
+def beU16 (body : List Int) (k : Nat) : Int := body.getD k 0 * 256 + body.getD (k + 1) 0
+
+/-- `read_be::<u32>()` at offset `k`: four bytes, most significant first -/
+def beU32 (body : List Int) (k : Nat) : Int :=
+  body.getD k 0 * 16777216 + body.getD (k + 1) 0 * 65536 + body.getD (k + 2) 0 * 256 + body.getD (k + 3) 0
+
+'''
+GROUP_PRELUDE = {"Parsers": BE}
+GROUP_IMPORTS = {"ParsersApng": ["Parsers"]}          # the readers beU8 / beU16 / beU32
+
+
 def kept_block(old_text, name):
     """the definitions `name` and `name_ok` (with their doc comments) as the generated file of the last run has them, or ''"""
     if not old_text:
@@ -2252,16 +3399,22 @@ def main():
     defs, ok, broken, enums, used = translate_all()
     for gi, g in enumerate(GROUPS):
         text = PRELUDE
+        out = os.path.join(OUTDIR, "Kernels%s.lean" % g)
+        old = open(out).read() if os.path.exists(out) else None
+        # a kernel whose last translation is kept may call functions of groups that the kernels translated on this run do not: the
+        # imports of the file of the last run are kept with it
+        kept_imports = set()
+        if old and any(gg == g and not isinstance(d, str) for (gg, d) in defs):
+            kept_imports = set(re.findall(r"^import PngVerif\.Generated\.Kernels(\w+)$", old, re.M))
         if gi > 0:
             text += "import PngVerif.Generated.Kernels%s\n" % GROUPS[0]
         for g2 in GROUPS[1:gi]:
-            if g2 in used.get(g, ()):
+            if g2 in used.get(g, ()) or g2 in GROUP_IMPORTS.get(g, ()) or g2 in kept_imports:
                 text += "import PngVerif.Generated.Kernels%s\n" % g2
         text += "set_option linter.unusedVariables false\nnamespace Png.Gen\n\n"
         if gi == 0:
             text += OPT
-        out = os.path.join(OUTDIR, "Kernels%s.lean" % g)
-        old = open(out).read() if os.path.exists(out) else None
+        text += GROUP_PRELUDE.get(g, "")
         text += "\n".join((d if isinstance(d, str) else kept_block(old, d[1])) for (gg, d) in defs if gg == g)
         text += "\n/-- kernels of this group translated on this run -/\ndef translated%s : List String := [%s]\n" % (g, ", ".join('"%s"' % n for (gg, n) in ok if gg == g))
         text += "\nend Png.Gen\n"
